@@ -168,6 +168,39 @@ Proof.
   repeat split; apply clean_final_spec; assumption.
 Qed.
 
+(* The stage-1 failure path of Model/Reuse.v, [seq_fail1 n], is the one where
+   findStructuralIndices has SENT every buffer it acquired and reports the
+   error at its end (error_mask set by a kernel: e.g. a control character
+   inside a string).  The other stage-1 failure path leaves the loop by
+   "break" between the acquire and the send (no structural character in the
+   buffer, unterminated string, last structural not a closing brace/bracket):
+   n buffers sent, buffer n acquired and ABANDONED, then the terminator.  Its
+   schedule, for a run of n + 1 acquires: *)
+Definition seq_stage1_abandon (n : nat) : list ev :=
+  rep_evs n [Acquire; Send] ++ [Acquire; SendTerm].
+
+Definition seq_fail1_abandon (n : nat) : list ev :=
+  seq_stage1_abandon n ++ [Fail2] ++ rep_evs (S n) recv1.
+
+(* for every n with n + 1 <= 14 (n sent buffers and the terminator fit into
+   the channel without a consumer) *)
+Definition seq_abandon_clean_b : bool :=
+  forallb (fun n => clean_final (S n) (seq_fail1_abandon n)) (seq 0 chanCap).
+
+Lemma seq_abandon_clean_check : seq_abandon_clean_b = true.
+Proof. vm_compute. reflexivity. Qed.
+
+Theorem seq_fail1_abandon_clean (n : nat) :
+  n < chanCap ->
+  exists s, Ring.run indexSlots chanCap (Ring.init (S n)) (seq_fail1_abandon n) = Some s /\
+            final s = true /\ queue s = [].
+Proof.
+  intros Hn. pose proof seq_abandon_clean_check as H.
+  unfold seq_abandon_clean_b in H. rewrite forallb_forall in H.
+  specialize (H n). rewrite in_seq in H. specialize (H ltac:(lia)).
+  apply clean_final_spec. exact H.
+Qed.
+
 (* the sequential path needs no ring argument of its own: its schedules are
    Ring schedules, so every Ring theorem (safety, order) applies to them *)
 
@@ -175,12 +208,13 @@ Qed.
 (* 3. group (c): stale ring contents are never read                    *)
 (* ------------------------------------------------------------------ *)
 
-Lemma inv_ring_start (CAP n : nat) (r0 : nat -> nat) : Inv CAP n (ring_start n [] r0).
+Lemma inv_ring_start (CAP n : nat) (r0 : nat -> nat) : Inv CAP n 0 (ring_start n [] r0).
 Proof.
   constructor; unfold ring_start, live;
     cbn [produced filling term_sent queue held waiting finished failed consumed n_total
          opt_list qids app length map andb].
   - exists 0. cbn. repeat split; lia.
+  - left. reflexivity.
   - lia.
   - lia.
   - reflexivity.
@@ -201,9 +235,8 @@ Theorem stale_ring_never_read (S CAP n : nat) (r0 : nat -> nat) (evs : list ev) 
   Ring.run S CAP (ring_start n [] r0) evs = Some s -> Safe S s.
 Proof.
   intros HC Hrun. assert (HS : 0 < S) by lia.
-  apply (inv_safe S CAP n s HC).
-  - exact (run_invariant S CAP (Inv CAP n) (inv_step S CAP n) evs _ s
-             (inv_ring_start CAP n r0) Hrun).
+  apply (inv_safe S CAP n (n_sent evs + 0) s HC).
+  - exact (proj1 (inv_run_gen S CAP n evs 0 _ s (inv_ring_start CAP n r0) Hrun)).
   - exact (run_invariant S CAP (RingOk S)
              (fun s0 e s1 H0 H1 => ringok_step S CAP s0 e s1 HS H0 H1)
              evs _ s (ringok_ring_start S n r0) Hrun).
@@ -252,6 +285,15 @@ Example seq_fail2_example :
   = Some (true, [], [0], true).
 Proof. vm_compute. reflexivity. Qed.
 
+(* the sequential path when stage 1 breaks out of its loop in the 4th buffer:
+   3 buffers sent, one abandoned, nothing consumed, everything drained *)
+Example seq_fail1_abandon_example :
+  option_map (fun s => (final s, queue s, consumed s, produced s, filling s))
+             (Ring.run indexSlots chanCap (Ring.init 4) (seq_fail1_abandon 3))
+  = Some (true, [], [], 4, None) /\
+  n_sent (seq_fail1_abandon 3) = 3 /\ producer_abandoned (seq_fail1_abandon 3) = true.
+Proof. vm_compute. repeat split. Qed.
+
 (* stage 1 alone cannot run to completion when it needs more than the
    channel's capacity: the sequential path is only sound for small inputs *)
 Example seq_stage1_blocks :
@@ -265,4 +307,5 @@ Print Assumptions reuse_inv_preserved.
 Print Assumptions reuse_many.
 Print Assumptions concurrent_path_clean.
 Print Assumptions seq_paths_clean.
+Print Assumptions seq_fail1_abandon_clean.
 Print Assumptions stale_ring_never_read.
